@@ -139,11 +139,12 @@ Fixpoint zrange (lo : Z) (n : nat) : list Z := match n with O => [] | S k => lo 
 Definition row_ok (size_of : Z -> Z) (a : disp_array) (power y : Z) : bool :=
   let size := size_of power in
   forallb (fun ar => ((da_hi a size y - da_lo a size y) * ar =? da_rcols a power size)) (da_arity a)
-  && (0 <=? da_lo a size y) && (da_hi a size y <=? size * size).
+  && (da_lo a size y =? size * y) && (da_hi a size y <=? size * size).
 Definition array_ok (size_of : Z -> Z) (a : disp_array) (power : Z) : bool :=
   let size := size_of power in
   da_written a && da_read a && negb (match da_arity a with [] => true | _ => false end)
   && (0 <=? da_rows a size) && (da_rows a size <=? size)
+  && forallb (fun ar => da_rows a size * ar =? da_rcols a power size) (da_arity a)
   && forallb (row_ok size_of a power) (zrange 0 (Z.to_nat (da_rows a size))).
 Definition powers : list Z := [1; 2; 3; 4].
 Definition array_ok_all_powers (size_of : Z -> Z) (a : disp_array) : bool := forallb (array_ok size_of a) powers.
